@@ -792,11 +792,13 @@ func checkNoConsumeOnRetry(c *Ctx, f *ssa.Function, memo map[*ssa.Function]*bufS
 }
 
 // checkPrefixTable evaluates the defaultPrefixes composite literal through the AST + constant values.
-func checkPrefixTable(c *Ctx) {
+func checkPrefixTable(c *Ctx) { checkPrefixTableAs(c, "C04.3") }
+
+func checkPrefixTableAs(c *Ctx, rule string) {
 	r := c.R
 	pk := c.P.All[repoMod+"/pkg/transports/wrapping/prefix"]
 	if pk == nil {
-		r.Unk("C04.3", "prefix package", token.NoPos, "", "not loaded")
+		r.Unk(rule, "prefix package", token.NoPos, "", "not loaded")
 		return
 	}
 	tag := constIntOf(c.P, pk.PkgPath, "minTagLength")
@@ -816,7 +818,7 @@ func checkPrefixTable(c *Ctx) {
 		})
 	}
 	if lit == nil {
-		r.Unk("C04.3", "defaultPrefixes literal", token.NoPos, "", "not found")
+		r.Unk(rule, "defaultPrefixes literal", token.NoPos, "", "not found")
 		return
 	}
 	st, _ := pk.Types.Scope().Lookup("prefix").Type().Underlying().(*types.Struct)
@@ -856,7 +858,7 @@ func checkPrefixTable(c *Ctx) {
 		name := types.ExprString(kv.Key)
 		v, ok := kv.Value.(*ast.CompositeLit)
 		if !ok {
-			r.Unk("C04.3", "defaultPrefixes["+name+"]", kv.Pos(), "", "entry is not a composite literal")
+			r.Unk(rule, "defaultPrefixes["+name+"]", kv.Pos(), "", "entry is not a composite literal")
 			continue
 		}
 		get := func(field string) ast.Expr {
@@ -876,7 +878,7 @@ func checkPrefixTable(c *Ctx) {
 		mn, ok2 := intVal(get("MinLen"))
 		mx, ok3 := intVal(get("MaxLen"))
 		okAll := okS && ok1 && ok2 && ok3 && off == sm && mn == off+tagN && mx == mn
-		r.Check(okAll, "C04.3", "defaultPrefixes["+name+"]: Offset == len(StaticMatch), MinLen == MaxLen == Offset + tag", kv.Pos(), "",
+		r.Check(okAll, rule, "defaultPrefixes["+name+"]: Offset == len(StaticMatch), MinLen == MaxLen == Offset + tag", kv.Pos(), "",
 			fmt.Sprintf("len(StaticMatch)=%d Offset=%d MinLen=%d MaxLen=%d tag=%d", sm, off, mn, mx, tagN),
 			fmt.Sprintf("prefix %s: len(StaticMatch)=%d Offset=%d MinLen=%d MaxLen=%d tag=%d are inconsistent: the station looks for the tag at a different offset than the client writes it (the client sends StaticMatch followed by the tag), so valid flights with this prefix are never recognised", name, sm, off, mn, mx, tagN))
 	}
@@ -902,7 +904,7 @@ func checkPrefixTable(c *Ctx) {
 				}
 			})
 		}
-		r.Check(okC, "C04.3", "client prefix table is built from the station table's StaticMatch bytes", f.Pos(), fnName(f), "applyDefaultPrefixes copies p.StaticMatch", "the client's prefix bytes are no longer taken from the table the station matches against")
+		r.Check(okC, rule, "client prefix table is built from the station table's StaticMatch bytes", f.Pos(), fnName(f), "applyDefaultPrefixes copies p.StaticMatch", "the client's prefix bytes are no longer taken from the table the station matches against")
 	}
 }
 
